@@ -390,3 +390,26 @@ def campaign(ctx):
                 ctx.sample("lax" if case.get("part") == "lax" else "roundtrip", case)
         ctx.fail_all(r["fails"], case)
     ctx.run_given(case_strategy(ctx.thorough), body, max_examples=ctx.n(1500, 20000))
+    # sized containers with an item type x members that are different before item conversion and equal after it:
+    # a grid enumerated completely on every run (seed independent)
+    F = lambda v: {"t": "float", "v": v}
+    members = [[1, "1"], [1, F("1.5")], ["1", 1, 2], [1, True], ["10", F("10.2"), 3], [1, 2], [1, 2, 3], ["a", "b"], [F("1.0"), "1", 1, 2], [" 1", 1], [2, "2", F("2.0")]]
+    idx = 0
+    for origin in ("set", "list", "frozenset"):
+        for a in ("int", "str", "float"):
+            for cname in ("min_length", "length", "max_length"):
+                for n in (1, 2, 3):
+                    for lax in ((False, True) if cname != "min_length" else (False,)):
+                        for vals in members:
+                            idx += 1
+                            if idx % ctx.nshards != ctx.shard:
+                                continue
+                            spec = {"k": "con", "o": origin, "c": {cname: n}, "args": [{"k": "leaf", "o": a}], "m": "annotate"}
+                            if lax:
+                                spec["lax"] = [cname]
+                            ctx.ev()
+                            try:
+                                body({"type": spec, "value": {"t": "list" if idx % 2 else "tuple", "v": vals}, "options": {}, "entry": ("call", "schema", "return")[idx % 3]})
+                            except HarnessError:
+                                ctx.label("grid_case_not_buildable")
+    ctx.extra["collision_grid_exhaustive"] = True
